@@ -765,6 +765,8 @@ func main() {
 	/* how the TLS connection is made, and whether the accessors ever write to the document */
 	b.WriteString("/-- the arguments of every tls.Dial* call in jtp/jtp.go (a nil config: Go's defaults, no client session cache, no client certificate) -/\ndef tlsDialArgs : List String := " + leanList(tlsDialArgs(parseFile(root, "jtp/jtp.go"))) + "\n\n")
 	b.WriteString(fmt.Sprintf("/-- assignments through an index expression (`m[k] = v`, `m[k] += v`, …) and delete() calls in object/object.go -/\ndef objectMapWrites : Nat := %d\n\n", mapWrites(parseFile(root, "object/object.go"))))
+	/* the media type grammar of package mime */
+	b.WriteString("/-- every regular expression compiled in mime/mime.go (concatenations joined, string constants of the file resolved) -/\ndef mimeRegexes : List String := " + leanList(compiledRegexes(parseFile(root, "mime/mime.go"))) + "\n\n")
 	/* Splicer.Harvest works on a clone */
 	b.WriteString("/-- the statements of Splicer.Harvest up to and including the call of replenish -/\ndef splicerHarvestHead : List String := " + leanList(splicerHead(parseFile(root, "splicer/splicer.go"))) + "\n\n")
 	/* the decision skeleton of config.postprocess */
@@ -1158,5 +1160,52 @@ func splicerHead(f *ast.File) []string {
 			}
 		}
 	}
+	return out
+}
+
+func compiledRegexes(f *ast.File) []string {
+	consts := map[string]string{}
+	for _, d := range f.Decls {
+		gd, ok := d.(*ast.GenDecl)
+		if !ok || (gd.Tok != token.CONST && gd.Tok != token.VAR) {
+			continue
+		}
+		for _, sp := range gd.Specs {
+			vs, ok := sp.(*ast.ValueSpec)
+			if !ok {
+				continue
+			}
+			for i, n := range vs.Names {
+				if i < len(vs.Values) {
+					if bl, ok := vs.Values[i].(*ast.BasicLit); ok && bl.Kind == token.STRING {
+						consts[n.Name] = unquote(bl)
+					}
+				}
+			}
+		}
+	}
+	out := []string{}
+	ast.Inspect(f, func(n ast.Node) bool {
+		ce, ok := n.(*ast.CallExpr)
+		if !ok || len(ce.Args) != 1 {
+			return true
+		}
+		if name := exprString(ce.Fun); name == "regexp.MustCompile" || name == "regexp.Compile" || name == "regexp.MustCompilePOSIX" {
+			parts := []string{}
+			flattenConcat(ce.Args[0], &parts)
+			joined := ""
+			for _, p := range parts {
+				if strings.HasPrefix(p, "@") {
+					if v, ok := consts[p[1:]]; ok {
+						joined += v
+						continue
+					}
+				}
+				joined += p
+			}
+			out = append(out, joined)
+		}
+		return true
+	})
 	return out
 }
